@@ -55,7 +55,7 @@ theorem block_on_polls_initially (s : St) (h : Reach 1 s) (hl : 4 ≤ s.lp ∧ s
 /-- **A wake of the block_on waker is not lost**: while `future_ready` is set and the loop is about to
     wait or waiting, the notification is pending or the waker is about to send it — the wait returns,
     and the flag stays set until the swap that polls the future. -/
-theorem block_on_wake_not_lost (s : St) (h : Reach 1 s) (hf : s.fready = 1) (hl : s.lp = 4 ∨ s.lp = 5) :
+theorem block_on_wake_not_lost (s : St) (h : Reach 1 s) (hf : s.fready = 1) (hl : s.lp = 4 ∨ s.lp = 5 ∨ s.lp = 9) :
     s.notif = 1 ∨ s.bwNotify > 0 := by
   have hi := inv_reach 1 (Nat.le_refl _) s h; unfold Verif.Inv.SignalProto.Inv at hi; omega
 
@@ -64,12 +64,22 @@ theorem block_on_wake_keeps_flag (s : St) (h : Reach 1 s) (hw : s.wakesPending =
 
 /-- a set flag is turned into a poll by the next swap -/
 theorem swap_polls (s : St) (hl : s.lp = 3) (hf : s.fready = 1) :
-    ∃ s', step s .swap = some s' ∧ s'.polls = s.polls + 1 ∧ s'.wakesPending = 0 := by
+    ∃ s', step s .swap = some s' ∧ s'.polls = s.polls + 1 ∧ s'.wakesPending = 0 ∧ s'.lp = 9 :=
+  ⟨{ s with fready := 0, polls := s.polls + 1, wakesPending := 0, lp := 9 },
+    by simp only [step, hl, hf, if_true], rfl, rfl, rfl⟩
+
+/-- **A wake that lands while the future is being polled is not lost** (another thread's, or the future
+    waking itself): when that poll returns Pending the flag is still set and the notification is pending
+    or about to be sent, so the coming wait returns and the next swap polls again. -/
+theorem wake_during_poll_not_lost (s : St) (h : Reach 1 s) (hl : s.lp = 9) (hw : s.wakesPending = 1) :
+    ∃ s', step s .pollEnd = some s' ∧
+      (s'.lp = 8 ∨ (s'.lp = 4 ∧ s'.fready = 1 ∧ s'.wakesPending = 1 ∧ (s'.notif = 1 ∨ s'.bwNotify > 0))) := by
+  have hi := inv_reach 1 (Nat.le_refl _) s h; unfold Verif.Inv.SignalProto.Inv at hi
   by_cases hd : s.futDone = 1
-  · exact ⟨{ s with fready := 0, polls := s.polls + 1, wakesPending := 0, lp := 8, result := 1 },
-      by simp only [step, hl, hf, hd, if_true], rfl, rfl⟩
-  · exact ⟨{ s with fready := 0, polls := s.polls + 1, wakesPending := 0, lp := 4 },
-      by simp only [step, hl, hf, hd, if_true, if_false], rfl, rfl⟩
+  · exact ⟨{ s with lp := 8, result := 1 }, by simp only [step, hl, hd, if_true], Or.inl rfl⟩
+  · refine ⟨{ s with lp := 4 }, by simp only [step, hl, hd, if_true, if_false], Or.inr ⟨rfl, ?_, hw, ?_⟩⟩
+    · show s.fready = 1; omega
+    · show s.notif = 1 ∨ s.bwNotify > 0; omega
 
 /-- **Some(output) exactly when the future completed, None exactly when stop came first** -/
 theorem block_on_result (s : St) (h : Reach 1 s) :
@@ -87,7 +97,12 @@ example : (run { mode := 0 } [.runStart, .check, .afterChecked, .enterWait, .sto
     .waitReturn, .afterWait, .check]).map (fun s => (s.lp, s.result, s.iters)) = some (8, 2, 1) := by decide
 
 /-- block_on: the future is woken from another thread between the swap and the wait -/
-example : (run { mode := 1 } [.runStart, .check, .afterChecked, .swap, .wakerStart, .complete, .wakerStore, .enterWait, .wakerNotify,
-    .waitReturn, .afterWait, .check, .afterChecked, .swap]).map (fun s => (s.result, s.polls)) = some (1, 2) := by decide
+example : (run { mode := 1 } [.runStart, .check, .afterChecked, .swap, .pollEnd, .wakerStart, .complete, .wakerStore, .enterWait, .wakerNotify,
+    .waitReturn, .afterWait, .check, .afterChecked, .swap, .pollEnd]).map (fun s => (s.result, s.polls)) = some (1, 2) := by decide
+
+/-- block_on: the wake lands *while the future is being polled*; the poll returns Pending, the wait returns at once, the future is polled again -/
+example : (run { mode := 1 } [.runStart, .check, .afterChecked, .swap, .pollEnd, .enterWait, .wakerStart, .wakerStore, .wakerNotify, .waitReturn, .afterWait,
+    .check, .afterChecked, .swap, .wakerStart, .wakerStore, .wakerNotify, .pollEnd, .enterWait, .waitReturn, .afterWait, .check, .afterChecked, .swap]).map
+    (fun s => (s.lp, s.polls)) = some (9, 3) := by decide
 
 end Verif.Props.C11
